@@ -22,10 +22,19 @@ if os.path.join(REPO, 'src') not in sys.path:
     sys.path.insert(0, os.path.join(REPO, 'src'))
 
 
+JOB_BUDGET_S = {'quick': int(os.environ.get('VERIF_JOB_BUDGET', '240')), 'thorough': int(os.environ.get('VERIF_JOB_BUDGET', '3000'))}
+
+
 def _run_job(job):
     """Worker: run one proof unit or one bounded stand-in; return a JSON-able record."""
     kind, modname, fname, tier, seed = job
     t0 = time.time()
+    import signal
+
+    def _alarm(signum, frame):
+        raise TimeoutError(f'job exceeded its wall-time budget ({JOB_BUDGET_S[tier]} s)')
+    signal.signal(signal.SIGALRM, _alarm)
+    signal.alarm(JOB_BUDGET_S[tier])
     try:
         mod = importlib.import_module(modname)
         fn = getattr(mod, fname)
@@ -37,7 +46,10 @@ def _run_job(job):
             rec.setdefault('kind', 'bounded')
         rec['job'] = f'{modname}.{fname}'
         rec['wall_s'] = time.time() - t0
+        signal.alarm(0)
         return rec
+    except TimeoutError as e:
+        return {'kind': 'timeout', 'job': f'{modname}.{fname}', 'error': str(e), 'wall_s': time.time() - t0}
     except Exception as e:  # checker error
         return {'kind': 'error', 'job': f'{modname}.{fname}', 'error': f'{type(e).__name__}: {e}',
                 'traceback': traceback.format_exc(), 'wall_s': time.time() - t0}
